@@ -397,7 +397,8 @@ def trigger(prog, rep):
     # the ordering: new_db_file computed before connect; creates + commit before the call
     order = {}
     for n in walk_own(init.node):
-        if isinstance(n, ast.Assign) and norm(n.targets[0]) == "new_db_file":
+        # the existence test of the database file, under whatever name its result is kept (or used on the spot)
+        if isinstance(n, ast.Call) and norm(n.func) in ("os.path.exists", "os.path.isfile") and n.args and norm(n.args[0]) == fp:
             order["new"] = n.lineno
         if isinstance(n, ast.Call) and norm(n.func) == "sqlite3.connect":
             order["connect"] = n.lineno
